@@ -139,9 +139,15 @@ class Vncdo:
         calls = self.reactor.getDelayedCalls()
         if not calls:
             return None, []
-        due = min(c.getTime() for c in calls)
+        # exactly ONE delayed call per step, in Twisted's order (due time, then creation order): simultaneous timers are
+        # separate events, as for the model
+        self.reactor._sortCalls()
+        call = self.reactor.calls.pop(0)
+        if call.getTime() > self.reactor.rightNow:
+            self.reactor.rightNow = call.getTime()
         n0 = len(self.trace)
-        self.reactor.advance(max(0.0, due - self.reactor.seconds()))
+        call.called = 1
+        call.func(*call.args, **call.kw)
         return ticks(self.reactor.seconds()), toks(self.trace[n0:])
 
     def lose(self, clean=True):
